@@ -74,6 +74,12 @@ func (fc *FuncCtx) monitorEnter(fr *Frame, st *State, owner types.Type, field, r
 			ev.monitorAssume = true
 			fc.u.fact(st.pc, ev.evalBool(cl.E))
 		}
+		for _, cl := range inv.Assumes {
+			ev := fc.invEnv(st, inv, owner, ref)
+			ev.monitorAssume = true
+			fc.u.fact(st.pc, ev.evalBool(cl.E))
+			fc.u.Assumptions["assumed for every "+inv.Type+" (never proved): "+cl.Src] = true
+		}
 	}
 	fc.u.Assumptions["monitor discipline: every thread that changes state protected by "+shortType(owner)+"."+field+" holds that lock and re-establishes the declared invariant before releasing it (each such function under contract is checked to do so)"] = true
 }
@@ -118,12 +124,14 @@ func (fc *FuncCtx) checkGuard(fr *Frame, st *State, p PlaceV, pos token.Pos, wri
 	if !fc.guardMode {
 		return
 	}
-	if p.Kind != "obj" || len(p.Path) == 0 {
+	if p.Kind != "obj" {
 		return
 	}
+	// an access to the whole struct (copying *p, e.g. to call a value-receiver method) touches every field
+	whole := len(p.Path) == 0
 	for _, g := range fc.eng.guarded {
 		t := fc.eng.lookupType(g.Pkg, g.Type)
-		if t == nil || !types.Identical(t, p.Root) || p.Path[0] != g.Field {
+		if t == nil || !types.Identical(t, p.Root) || (!whole && p.Path[0] != g.Field) {
 			continue
 		}
 		if fc.freshRefs[p.Idx[0]] {
@@ -131,7 +139,7 @@ func (fc *FuncCtx) checkGuard(fr *Frame, st *State, p PlaceV, pos token.Pos, wri
 			continue
 		}
 		if g.Mode == "atomic" {
-			fc.oblige(fr, st, "guard."+g.Type+"."+g.Field, "", "false", pos, "field "+g.Type+"."+g.Field+" is declared atomic-only but is accessed by a plain load/store")
+			fc.oblige(fr, st, "guard."+g.Type+"."+g.Field, "", "false", pos, "field "+g.Type+"."+g.Field+" is only accessed through sync/atomic (this is a plain load/store"+map[bool]string{true: " of the whole struct", false: ""}[whole]+")")
 			continue
 		}
 		key := "L!O!" + typeKey(t) + "." + g.Lock
